@@ -166,6 +166,22 @@ class Patches:
         elif self.base.space_dim == 3:
             raise NotImplementedError
 
+        # ! ---- Extent of patches (without overlap)
+
+        # Patches consist of whole voxels, and the last patch in each direction is cut at
+        # the image boundary. Metric centers and corners therefore have to be deduced
+        # from the voxel intervals (they are multiples of patch_dimensions_metric only if
+        # the number of voxels is a multiple of the number of patches).
+        vs = self.base.voxel_size
+        start_metric = [
+            [k * pv[d] * vs[d] for k in range(self.num_patches[d])]
+            for d in range(self.num_active_spatial_axes)
+        ]
+        stop_metric = [
+            [min(nv[d], (k + 1) * pv[d]) * vs[d] for k in range(self.num_patches[d])]
+            for d in range(self.num_active_spatial_axes)
+        ]
+
         # ! ---- Coordinates of patch centers
 
         # Store centers of each patch in global Cartesian coordinates and metric units
@@ -176,8 +192,8 @@ class Patches:
                         self.base.origin
                         + np.array(
                             [
-                                (j + 0.5) * patch_dimensions_metric[1],
-                                -(i + 0.5) * patch_dimensions_metric[0],
+                                0.5 * (start_metric[1][j] + stop_metric[1][j]),
+                                -0.5 * (start_metric[0][i] + stop_metric[0][i]),
                             ]
                         )
                         for j in range(self.num_patches[1])
@@ -220,22 +236,10 @@ class Patches:
                     [
                         np.array(
                             [
-                                [
-                                    j * patch_dimensions_metric[1],
-                                    -i * patch_dimensions_metric[0],
-                                ],
-                                [
-                                    j * patch_dimensions_metric[1],
-                                    -(i + 1) * patch_dimensions_metric[0],
-                                ],
-                                [
-                                    (j + 1) * patch_dimensions_metric[1],
-                                    -(i + 1) * patch_dimensions_metric[0],
-                                ],
-                                [
-                                    (j + 1) * patch_dimensions_metric[1],
-                                    -i * patch_dimensions_metric[0],
-                                ],
+                                [start_metric[1][j], -start_metric[0][i]],
+                                [start_metric[1][j], -stop_metric[0][i]],
+                                [stop_metric[1][j], -stop_metric[0][i]],
+                                [stop_metric[1][j], -start_metric[0][i]],
                             ]
                         )
                         + self.base.origin[np.newaxis, :]
